@@ -63,7 +63,7 @@ def outcome_signature(g, res):
     return "%s|%s|%s|%s" % (g.get("shape"), sorted(g.get("outcome", {}).items()), run.get("out_id"), run.get("err_type"))
 
 
-def run_and_monitor(check, runner, items, props, per_case_timeout=60.0, monitor=None, on_result=None, max_reject=0.1):
+def run_and_monitor(check, runner, items, props, per_case_timeout=60.0, monitor=None, on_result=None, max_reject=0.1, claim_deaths=False):
     """items: list of (case, sem, g). Executes them, runs the monitors, reports violations of `props`.
 
     Deaths are attributed with death_property(); those that speak about another property make the
@@ -82,6 +82,11 @@ def run_and_monitor(check, runner, items, props, per_case_timeout=60.0, monitor=
             if prop in props:
                 check.report(key, "%s in case %s: %s" % (d["kind"], cid, (d.get("message") or d["key"])[:300]),
                              {"case": case, "death": {k: d[k] for k in ("kind", "key", "exit_code") if k in d}, "detail": d.get("detail", "")[:4000]})
+            elif claim_deaths and d["kind"] in ("panic", "fatal") and sem is not None and sem.result()["avail"]:
+                # the process died in a run whose result the reference fixes: whatever else that says (it is C07's business),
+                # the prescribed result was not returned
+                check.report("result@process-died-but-producible:" + str(d["key"])[:100], "case %s (%s): the process died (%s) although outputs %s are producible" % (
+                    cid, g.get("shape"), (d.get("message") or d["key"])[:200], sorted(sem.result()["avail"])), {"case": case, "death": {k: d[k] for k in ("kind", "key") if k in d}, "detail": d.get("detail", "")[:3000]})
             elif d["kind"] in ("timeout", "exit", "harness"):
                 check.inconclusive_case(cid, "%s: %s" % (d["kind"], d.get("detail", "")[-300:]))
             else:
